@@ -9,6 +9,8 @@ import (
 	"encoding/json"
 	"fmt"
 	"os"
+	"runtime"
+	"sync"
 	"testing"
 
 	pb "github.com/refraction-networking/conjure/proto"
@@ -31,6 +33,12 @@ type vcase struct {
 	// protobuf codec
 	Pb  *vpb   `json:"pb"`
 	Unk string `json:"unk"` // raw unknown fields to attach before marshalling
+	// batch mode: the whole list goes through the encoder first and every result is kept by the caller
+	Items  []vcase `json:"items"`
+	Conc   int     `json:"conc"`   // > 1: that many concurrent callers (item i belongs to caller i mod conc)
+	Procs  int     `json:"procs"`  // GOMAXPROCS while the concurrent callers run (0 = unchanged)
+	Keys   string  `json:"keys"`   // obf: "one" station key pair for the batch | "each" item its own
+	Shared bool    `json:"shared"` // the caller reuses ONE input buffer for every call (sequential only)
 }
 
 // typed view of the transport-parameter messages; nil pointers = field absent
@@ -64,6 +72,11 @@ type vres struct {
 	URL    string `json:"url"`
 	Panic  string `json:"panic"`
 	Pb     *vpb   `json:"pb"`
+	// batch mode
+	Items     []vres `json:"items,omitempty"`
+	Snap      string `json:"snap"`      // the encoding as it was right after its own call (the driver's copy)
+	DecStable bool   `json:"decstable"` // the decoded value still looks as it did right after its own decode call
+	Alias     bool   `json:"alias"`     // informational: the decoded value changed when the decoder's input was overwritten afterwards
 }
 
 func unhexp(s *string) []byte {
@@ -263,6 +276,213 @@ func fieldsOf(m proto.Message) []int {
 	return nil
 }
 
+
+// ---- batch mode ----
+// k calls of one encoder whose results are ALL kept by the caller (not copied: the point is to observe what the
+// caller holds), then k calls of the decoder on what is held, all decoded values kept as well, and only then is
+// anything looked at.  The driver records; the oracle is in c15.py.
+
+func runCalls(n, conc, procs int, call func(i int)) {
+	if conc <= 1 {
+		for i := 0; i < n; i++ {
+			call(i)
+		}
+		return
+	}
+	if procs > 0 {
+		prev := runtime.GOMAXPROCS(procs)
+		defer runtime.GOMAXPROCS(prev)
+	}
+	var wg sync.WaitGroup
+	for w := 0; w < conc; w++ {
+		wg.Add(1)
+		go func(w int) {
+			defer wg.Done()
+			for i := w; i < n; i += conc {
+				call(i)
+				runtime.Gosched()
+			}
+		}(w)
+	}
+	wg.Wait()
+}
+
+func guard(r *vres, f func()) {
+	defer func() {
+		if p := recover(); p != nil {
+			r.Panic = fmt.Sprint(p)
+		}
+	}()
+	f()
+}
+
+// enc(i) -> the bytes the caller holds; dec(i, held) -> a value the caller holds; view(i, value, r) writes the
+// value's projection into r.  afterEnc runs when the last encoder call has returned.
+func runBatch(c vcase, afterEnc func(), enc func(i int) ([]byte, error), dec func(i int, b []byte) (interface{}, error),
+	view func(i int, v interface{}, r *vres)) []vres {
+	n := len(c.Items)
+	res := make([]vres, n)
+	held := make([][]byte, n)
+	snaps := make([][]byte, n)
+	runCalls(n, c.Conc, c.Procs, func(i int) {
+		guard(&res[i], func() {
+			out, err := enc(i)
+			held[i] = out
+			res[i].Ok, res[i].Err = err == nil, errStr(err)
+			snaps[i] = append([]byte(nil), out...)
+		})
+	})
+	afterEnc()
+	for i := range res { // what the caller holds after the LAST call
+		res[i].Snap = hex.EncodeToString(snaps[i])
+		res[i].Out = hex.EncodeToString(held[i])
+	}
+	vals := make([]interface{}, n)
+	decSnap := make([]string, n)
+	project := func(i int) string {
+		var tmp vres
+		guard(&tmp, func() { view(i, vals[i], &tmp) })
+		b, _ := json.Marshal(tmp)
+		return string(b)
+	}
+	for i := range res {
+		if !res[i].Ok || res[i].Panic != "" {
+			continue
+		}
+		guard(&res[i], func() {
+			v, err := dec(i, held[i])
+			vals[i] = v
+			res[i].Ok2, res[i].Err2 = err == nil, errStr(err)
+		})
+		if res[i].Ok2 {
+			decSnap[i] = project(i)
+		}
+	}
+	for i := range res {
+		if res[i].Ok2 {
+			guard(&res[i], func() { view(i, vals[i], &res[i]) })
+			res[i].DecStable = project(i) == decSnap[i]
+		}
+	}
+	// informational: does the decoded value share storage with the decoder's input?
+	for i := range res {
+		if res[i].Ok2 {
+			for j := range held[i] {
+				held[i][j] ^= 0x5a
+			}
+			res[i].Alias = project(i) != decSnap[i]
+		}
+	}
+	return res
+}
+
+// the inputs of a batch and the buffer each call is given: its own, or (shared) ONE buffer the caller reuses
+func batchInputs(c vcase) (data [][]byte, input func(i int) []byte, afterEnc func()) {
+	n := len(c.Items)
+	data = make([][]byte, n)
+	maxLen := 0
+	for i, it := range c.Items {
+		data[i], _ = hex.DecodeString(it.Data)
+		if data[i] == nil {
+			data[i] = []byte{}
+		}
+		if len(data[i]) > maxLen {
+			maxLen = len(data[i])
+		}
+	}
+	shared := make([]byte, maxLen)
+	input = func(i int) []byte {
+		if !c.Shared || c.Conc > 1 {
+			return data[i]
+		}
+		in := shared[:len(data[i])]
+		copy(in, data[i])
+		return in
+	}
+	afterEnc = func() { // the caller goes on using its input buffer
+		for j := range shared {
+			shared[j] = 0xa5
+		}
+	}
+	return
+}
+
+func bytesView(i int, v interface{}, r *vres) {
+	b, _ := v.([]byte)
+	r.Out2 = hex.EncodeToString(b)
+}
+
+func batch(c vcase, r *vres) {
+	n := len(c.Items)
+	if n == 0 {
+		return
+	}
+	_, input, afterEnc := batchInputs(c)
+	switch c.Items[0].Op {
+	case "obf":
+		o := obfuscator(c.Variant)
+		privs := make([][32]byte, n)
+		pubs := make([][]byte, n)
+		for i, it := range c.Items {
+			if i == 0 || c.Keys == "each" {
+				privs[i], pubs[i] = freshKeyPair()
+			} else {
+				privs[i], pubs[i] = privs[0], pubs[0]
+			}
+			if it.PubLen != 32 {
+				pubs[i] = make([]byte, it.PubLen)
+			}
+		}
+		r.Items = runBatch(c, afterEnc,
+			func(i int) ([]byte, error) { return o.Obfuscate(input(i), pubs[i]) },
+			func(i int, b []byte) (interface{}, error) { return o.TryReveal(b, privs[i]) },
+			bytesView)
+	case "pb_rt":
+		r.Items = runBatch(c, afterEnc,
+			func(i int) ([]byte, error) { return proto.Marshal(pbBuild(c.Items[i].Kind, c.Items[i].Pb)) },
+			func(i int, b []byte) (interface{}, error) {
+				m := pbNew(c.Items[i].Kind)
+				return m, proto.Unmarshal(b, m)
+			},
+			func(i int, v interface{}, r *vres) { r.Pb = pbView(v.(proto.Message)) })
+	case "anypb":
+		type unpacked struct {
+			src *anypb.Any
+			dst proto.Message
+		}
+		r.Items = runBatch(c, afterEnc,
+			func(i int) ([]byte, error) {
+				it := c.Items[i]
+				a, err := anypb.New(mkMsg(it.Kind, it.Fields))
+				if err != nil {
+					return nil, err
+				}
+				switch it.URL {
+				case "empty":
+					a.TypeUrl = ""
+				case "tapdance":
+					a.TypeUrl = "type.googleapis.com/tapdance." + a.TypeUrl[len("type.googleapis.com/proto."):]
+				case "other":
+					a.TypeUrl = "type.googleapis.com/proto.NoSuchMessage"
+				}
+				return proto.Marshal(a)
+			},
+			func(i int, b []byte) (interface{}, error) {
+				src := &anypb.Any{}
+				if err := proto.Unmarshal(b, src); err != nil {
+					return nil, fmt.Errorf("unmarshal: %v", err)
+				}
+				dst := mkMsg(c.Items[i].DstKind, nil)
+				return unpacked{src, dst}, UnmarshalAnypbTo(src, dst)
+			},
+			func(i int, v interface{}, r *vres) {
+				u := v.(unpacked)
+				r.Fields, r.URL = fieldsOf(u.dst), u.src.TypeUrl
+			})
+	}
+	r.Ok = true
+}
+
 func runCase(c vcase) (r vres) {
 	defer func() {
 		if p := recover(); p != nil {
@@ -271,6 +491,8 @@ func runCase(c vcase) (r vres) {
 	}()
 	d, _ := hex.DecodeString(c.Data)
 	switch c.Op {
+	case "batch":
+		batch(c, &r)
 	case "obf": // two encodings of the same tag under a fresh key pair; reveal the first
 		o := obfuscator(c.Variant)
 		priv, pub := freshKeyPair()
